@@ -43,6 +43,10 @@ func init() {
 		variant{Name: "column-range-lower-bound-only", File: multi, Find: "func (m *Multi) Column(pos int, fill bool) []alphabet.Letter {\n\tif pos < m.Start() || pos >= m.End() {\n", Replace: "func (m *Multi) Column(pos int, fill bool) []alphabet.Letter {\n\tif pos < m.Start() {\n", Rule: "rangepanic", Key: "multi.(*Multi).Column/returns-only-inside-[Start,End)"},
 		variant{Name: "benign-row-column-helper", File: aln, Find: "// At returns the letter at position i.\nfunc (r Row) At(i int) alphabet.QLetter {\n\treturn alphabet.QLetter{\n\t\tL: r.Align.Seq[i-r.Align.Offset][r.Row],\n", Replace: "func (r Row) column(i int) int { return i - r.Align.Offset }\n\n// At returns the letter at position i.\nfunc (r Row) At(i int) alphabet.QLetter {\n\treturn alphabet.QLetter{\n\t\tL: r.Align.Seq[r.column(i)][r.Row],\n"},
 	)
+	add("C05",
+		variant{Name: "benign-qseq-reverse-half-loop", File: qseq, Find: "\tl := s.Seq\n\tfor i, j := 0, len(l)-1; i < j; i, j = i+1, j-1 {\n\t\tl[i], l[j] = l[j], l[i]\n\t}\n\ts.Strand = seq.None\n", Replace: "\tl := s.Seq\n\tfor i := 0; i < len(l)/2; i++ {\n\t\tj := len(l) - 1 - i\n\t\tl[i], l[j] = l[j], l[i]\n\t}\n\ts.Strand = seq.None\n"},
+		variant{Name: "qalignment-delete-keeps-one-more", File: "seq/alignment/qalignment.go", Find: "\t\tcs[j] = c[:i+copy(c[i:], c[i+1:])]\n\t}\n\tsa := s.SubAnnotations\n\ts.SubAnnotations = sa[:i+copy(sa[i:], sa[i+1:])]\n}\n\n// Row returns the sequence represented at row i of the alignment. It panics is i is out of range.\nfunc (s *QSeq) Row", Replace: "\t\tcs[j] = c[:i+copy(c[i:], c[i+1:])]\n\t}\n\tsa := s.SubAnnotations\n\ts.SubAnnotations = sa[:i+1+copy(sa[i+1:], sa[i+2:])]\n}\n\n// Row returns the sequence represented at row i of the alignment. It panics is i is out of range.\nfunc (s *QSeq) Row", Rule: "siblingarith", Key: "seq/alignment.Seq/QSeq.Delete"},
+	)
 	add("C19",
 		variant{Name: "benign-chunk-size-integer-ceiling", File: cmap, Find: "\tchunkSize := util.Min(int(math.Ceil(float64(set.Len())/float64(threads))), maxChunkSize)\n", Replace: "\tchunkSize := util.Min((set.Len()+threads-1)/threads, maxChunkSize)\n",
 			More: []edit{{cmap, "\t\"fmt\"\n\t\"math\"\n", "\t\"fmt\"\n"}}},
